@@ -1,2 +1,157 @@
-(* C12/Examples.v — non-vacuity and worked examples. *)
+(* C12/Examples.v — non-vacuity: concrete, non-trivial instances of every
+   hypothesis used in Properties.v, and worked examples. *)
 From XV Require Import lib.Bytes gen.StreamHdr C12.Model C12.Proofs.
+From Coq Require Import NArith.
+Local Open Scope N_scope.
+
+(* an address with a quote, a space, angle brackets and an ampersand in its resourcepart *)
+Definition me : jid := mkjid (str "me") (str "example.net") (str "it's <&>").
+Definition srv : jid := mkjid [] (str "example.net") [].
+
+(* jid.Parse on the two strings that occur below *)
+Definition parse_ex (v : bytes) : option jid :=
+  if bytes_eqb v (jid_string me) then Some me
+  else if bytes_eqb v (jid_string srv) then Some srv else None.
+
+Example ex_me_string : jid_string me = str "me@example.net/it's <&>".
+Proof. reflexivity. Qed.
+
+Example ex_valid_me : valid_jid parse_ex me.
+Proof. split; [vm_compute; reflexivity | right; vm_compute; reflexivity]. Qed.
+Example ex_valid_srv : valid_jid parse_ex srv.
+Proof. split; [vm_compute; reflexivity | right; vm_compute; reflexivity]. Qed.
+Example ex_valid_zero : valid_jid parse_ex jid_zero.
+Proof. split; [reflexivity | left; reflexivity]. Qed.
+Example ex_parse_nonzero : forall v j, parse_ex v = Some j -> j <> jid_zero.
+Proof.
+  intros v j H. unfold parse_ex in H.
+  destruct (bytes_eqb v (jid_string me)); [inversion H; discriminate|].
+  destruct (bytes_eqb v (jid_string srv)); [inversion H; discriminate | discriminate].
+Qed.
+
+(* clean text: ASCII specials, two-, three- and four-byte characters *)
+Example ex_text_ok : text_ok (str "it's <&> ""q"" " ++ hex "c3a9e697a5f09f9880") = true.
+Proof. vm_compute. reflexivity. Qed.
+(* not clean: a lone continuation byte, a control character, U+FFFE *)
+Example ex_text_bad : text_ok (hex "80") = false /\ text_ok (hex "01") = false /\ text_ok (hex "efbfbe") = false.
+Proof. vm_compute. repeat split; reflexivity. Qed.
+Example ex_escape_replaces : escape_text (hex "41ff01efbfbe42") = hex "41efbfbdefbfbdefbfbd42".
+Proof. vm_compute. reflexivity. Qed.
+Example ex_plain : forallb plainb ns_client = true /\ forallb plainb ns_server = true.
+Proof. vm_compute. split; reflexivity. Qed.
+
+(* the header of a c2s initiator, byte for byte *)
+Example ex_send :
+  send_header false ns_client default_version (str "en") (jid_string srv) (jid_string me) [] =
+  str "<?xml version=""1.0"" encoding=""UTF-8""?><stream:stream xmlns='jabber:client' xmlns:stream='http://etherx.jabber.org/streams' version='1.0' to='example.net' from='me@example.net/it&#39;s &lt;&amp;&gt;' xml:lang='en'>".
+Proof. vm_compute. reflexivity. Qed.
+
+Example ex_send_ws :
+  send_header true ns_client default_version [] (jid_string me) [] (str "a""b") =
+  str "<open xmlns=""urn:ietf:params:xml:ns:xmpp-framing"" version='1.0' id='a&#34;b' to='me@example.net/it&#39;s &lt;&amp;&gt;'/>".
+Proof. vm_compute. reflexivity. Qed.
+
+(* read back: the resourcepart arrives intact *)
+Example ex_read :
+  read_start (send_header false ns_client default_version (str "en") (jid_string srv) (jid_string me) [] ++ str "<x/>") =
+  Some (tcp_token ns_client default_version (str "en") (jid_string srv) (jid_string me) [], false, str "<x/>").
+Proof. vm_compute. reflexivity. Qed.
+
+(* the reader refuses what the unrepaired Send used to print *)
+Example ex_read_unescaped :
+  read_start (str "<stream:stream xmlns='jabber:client' xmlns:stream='http://etherx.jabber.org/streams' version='1.0' from='me@example.net/it's <&>'>") = None.
+Proof. vm_compute. reflexivity. Qed.
+
+(* other quoting, entities and character references *)
+Example ex_read_entities :
+  read_start (str "<a b=""x&apos;&#x3c;&#62;&quot;"" c = '&amp;'/>") =
+  Some (TStart [] (str "a") [mkattr [] (str "b") (str "x'<>"""); mkattr [] (str "c") (str "&")], true, []).
+Proof. vm_compute. reflexivity. Qed.
+
+(* Expect: declaration, white space, header; the receiving side needs no id *)
+Definition hdr_tok : tok := tcp_token ns_client default_version (str "en") (jid_string srv) (jid_string me) [].
+Example ex_expect_ok :
+  expect parse_ex true false info_zero [TProcInst (str "xml"); TChar (str " "); hdr_tok; TStart ns_stream (str "features") []] =
+  (EOk, mkinfo ns_stream (str "stream") ns_client srv me [] (1, 0) [], [TStart ns_stream (str "features") []]).
+Proof. vm_compute. reflexivity. Qed.
+Example ex_no_end : no_end_before_start [TProcInst (str "xml"); TChar (str " "); hdr_tok] = true.
+Proof. reflexivity. Qed.
+(* the initiating side refuses it: no stream id *)
+Example ex_expect_no_id : fst (fst (expect parse_ex false false info_zero [hdr_tok])) = EStream c_bad_format.
+Proof. vm_compute. reflexivity. Qed.
+(* version 2.0, a comment first, the wrong element *)
+Example ex_expect_rejects :
+  fst (fst (expect parse_ex true false info_zero
+             [TStart ns_stream (str "stream") [mkattr [] (str "xmlns") ns_client; mkattr [] (str "version") (str "2.0")]]))
+    = EStream c_unsupported_version /\
+  fst (fst (expect parse_ex true false info_zero [TComment; hdr_tok])) = EOther /\
+  fst (fst (expect parse_ex true true info_zero [hdr_tok])) = EStream c_invalid_namespace.
+Proof. vm_compute. repeat split; reflexivity. Qed.
+
+(* a stream error with a text and a condition *)
+Definition err_kids : list node :=
+  [NText (str " "); NElem ns_stream_error (str "host-unknown") [] [];
+   NElem ns_stream_error (str "text") [mkattr ns_xml (str "lang") (str "en")] [NText (str "no such host")]].
+Example ex_defined : forallb defined_child err_kids = true.
+Proof. reflexivity. Qed.
+Example ex_stream_error :
+  expect parse_ex false false info_zero
+    (TStart ns_stream (str "error") [] :: flat_map flatten err_kids ++ [TEnd ns_stream (str "error")])
+  = (EStream (str "host-unknown"), info_zero, []).
+Proof. vm_compute. reflexivity. Qed.
+
+(* a receiving c2s session: first header sets both addresses, the restart
+   repeats them; then one that changes the origin's resourcepart is refused *)
+Definition peer_hdr (from : jid) : list tok :=
+  [tcp_token ns_client default_version [] (jid_string srv) (jid_string from) []].
+Example ex_rounds_ok :
+  let '(res, i, wires) := neg_rounds parse_ex true false false (str "en") info_zero
+                                     [(str "id1", peer_hdr me); (str "id2", peer_hdr me)] in
+  res = NOk /\ i_to i = srv /\ i_from i = me /\ length wires = 2%nat.
+Proof. vm_compute. repeat split; reflexivity. Qed.
+
+Definition me2 : jid := mkjid (str "me") (str "example.net") (str "other").
+Definition parse_ex2 (v : bytes) : option jid :=
+  if bytes_eqb v (jid_string me2) then Some me2 else parse_ex v.
+Example ex_rounds_changed :
+  fst (fst (neg_rounds parse_ex2 true false false (str "en") info_zero
+                       [(str "id1", peer_hdr me); (str "id2", peer_hdr me2)])) = NMismatch.
+Proof. vm_compute. reflexivity. Qed.
+
+(* the initiating side: the peer's header after a restart names another domain *)
+Definition srv_hdr (from : jid) : list tok :=
+  [tcp_token ns_client default_version [] [] (jid_string from) (str "s1")].
+Example ex_init_changed :
+  fst (fst (neg_rounds parse_ex2 false false false [] (mkinfo [] [] [] me srv [] (0, 0) [])
+                       [([], srv_hdr srv); ([], srv_hdr me2)])) = NMismatch /\
+  fst (fst (neg_rounds parse_ex2 false false false [] (mkinfo [] [] [] me srv [] (0, 0) [])
+                       [([], srv_hdr srv); ([], srv_hdr srv)])) = NOk.
+Proof. vm_compute. split; reflexivity. Qed.
+
+(* resource binding *)
+Example ex_bind_request :
+  flatten (bind_request (str "r1") (str "it's <&>")) =
+  [TStart ns_client (str "iq") [mkattr [] (str "type") (str "set"); mkattr [] (str "id") (str "r1")];
+   TStart ns_bind (str "bind") []; TStart ns_bind (str "resource") []; TChar (str "it's <&>");
+   TEnd ns_bind (str "resource"); TEnd ns_bind (str "bind"); TEnd ns_client (str "iq")].
+Proof. vm_compute. reflexivity. Qed.
+Example ex_bind_request_none :
+  flatten (bind_request (str "r1") []) =
+  [TStart ns_client (str "iq") [mkattr [] (str "type") (str "set"); mkattr [] (str "id") (str "r1")];
+   TStart ns_bind (str "bind") []; TEnd ns_bind (str "bind"); TEnd ns_client (str "iq")].
+Proof. vm_compute. reflexivity. Qed.
+Example ex_bind_hyp : is_nil (jid_string me) = false /\ parse_ex (jid_string me) = Some me /\ me <> jid_zero.
+Proof. repeat split; try (vm_compute; reflexivity). discriminate. Qed.
+(* a result without an address, a wrong id, an error reply: refused, address kept *)
+Example ex_bind_refused :
+  bind_client parse_ex (str "r1") (IElem (NElem ns_client (str "iq") [mkattr [] (str "type") (str "result"); mkattr [] (str "id") (str "r1")] [])) me
+    = (BStream c_bad_format, me) /\
+  bind_client parse_ex (str "r1") (IElem (NElem ns_client (str "iq") [mkattr [] (str "type") (str "result"); mkattr [] (str "id") (str "r2")]
+                                       [NElem ns_bind (str "bind") [] [NElem ns_bind (str "jid") [] [NText (jid_string me)]]])) srv
+    = (BStream c_undefined_condition, srv) /\
+  bind_client parse_ex (str "r1") (IElem (NElem ns_client (str "iq") [mkattr [] (str "type") (str "error"); mkattr [] (str "id") (str "r1")] [])) me
+    = (BStanzaErr, me).
+Proof. vm_compute. repeat split; reflexivity. Qed.
+(* the default of the receiving side: a fresh resource on the remote bare address *)
+Example ex_default : default_verdict me (str "f00d") = VJid (mkjid (str "me") (str "example.net") (str "f00d")).
+Proof. reflexivity. Qed.
